@@ -492,6 +492,11 @@ Inductive hres :=
 | HFound (ok : bool) (n : option node) (h : hterm) (ps : params)   (* ok = false: 404 / 405 *)
 | HPanic (site : bytes).
 
+(* the handler registered for a request method; the empty method name is the key of the 405 handler,
+   not a method a request can ask for *)
+Definition lookup_handler (method : bytes) (hs : list (bytes * hterm)) : option hterm :=
+  if beqb method M405 then None else alookup method hs.
+
 (* Tree.Handler *)
 Definition tree_handler (t : tree) (method path : bytes) (ps : params) : hres :=
   let trace_hit := match ttrace t with Some h => if beqb method TRACE then Some h else None | None => None end in
@@ -505,7 +510,7 @@ Definition tree_handler (t : tree) (method path : bytes) (ps : params) : hres :=
     | MNone ps' => HFound false None (tnotfound t) ps'
     | MFound n ps' =>
       if Nat.eqb (nsize n) O then HFound false None (tnotfound t) ps'
-      else match alookup method (nhandlers n) with
+      else match lookup_handler method (nhandlers n) with
            | Some h => HFound true (Some n) h ps'
            | None => match alookup M405 (nhandlers n) with
                      | Some h => HFound false (Some n) h ps'
